@@ -69,6 +69,7 @@ type FailureRec struct {
 	Trace    []string `json:"steps"`
 	Sample   any      `json:"config,omitempty"`
 	Shrinks  int      `json:"shrink_executions"`
+	Variant  uint64   `json:"variant"`
 }
 
 // WorkerOut is what a worker writes for the driver.
@@ -100,6 +101,7 @@ type WorkerOut struct {
 	Assumptions  []string          `json:"assumptions"`
 	Rule         string            `json:"rule"`
 	Extra        map[string]int64  `json:"extra"`
+	FailCounts   map[string]int    `json:"fail_counts"` // failing runs per oracle (all of them, not only the recorded ones)
 }
 
 func envInt(name string, def int64) int64 {
@@ -159,6 +161,7 @@ func Main(t *testing.T, spec Spec) {
 		idx := start + uint64(i)*stride
 		runSeed := simrt.Mix(seed, idx)
 		tape := simrt.NewTape(runSeed)
+		tape.Variant = simrt.Mix(runSeed, 0x5eed) >> 8
 		cfg := spec.Config(tier)
 		curSample = nil
 		if spec.PerRun != nil {
@@ -208,7 +211,7 @@ func Main(t *testing.T, spec Spec) {
 				// the raw failure without shrinking again (cheap), up to a cap
 				if seenOracles[res.Failure.Oracle] < 4 {
 					out.Failures = append(out.Failures, FailureRec{Oracle: res.Failure.Oracle, Msg: res.Failure.Msg,
-						RunIndex: idx, Seed: seed, Tape: res.Tape, OrigLen: len(res.Tape), Sample: curSample})
+						RunIndex: idx, Seed: seed, Tape: res.Tape, OrigLen: len(res.Tape), Sample: curSample, Variant: tape.Variant})
 				}
 				seenOracles[res.Failure.Oracle]++
 				continue
@@ -217,7 +220,7 @@ func Main(t *testing.T, spec Spec) {
 			if envInt("KSIM_SHRINK_S", 45) == 0 {
 				continue
 			}
-			fr := shrink(t, spec, tier, res, idx, seed)
+			fr := shrink(t, spec, tier, res, idx, seed, tape.Variant)
 			out.Failures = append(out.Failures, fr)
 			if maxFail > 0 && len(seenOracles) >= maxFail {
 				break
@@ -233,6 +236,7 @@ func Main(t *testing.T, spec Spec) {
 			out.InconclWhy[key]++
 		}
 	}
+	out.FailCounts = seenOracles
 	for k := range states {
 		out.States = append(out.States, k)
 	}
@@ -258,18 +262,20 @@ func Main(t *testing.T, spec Spec) {
 	}
 }
 
-func runForced(t *testing.T, spec Spec, tier string, vals []uint64, trace bool) *simrt.Result {
+func runForced(t *testing.T, spec Spec, tier string, vals []uint64, variant uint64, trace bool) *simrt.Result {
 	cfg := spec.Config(tier)
 	cfg.Trace = trace
 	curSample = nil
 	if spec.PerRun != nil {
 		spec.PerRun()
 	}
-	return RunBubble(t, simrt.ForcedTape(vals), cfg, func(s *simrt.Sim) { spec.Body(s, tier) })
+	ft := simrt.ForcedTape(vals)
+	ft.Variant = variant
+	return RunBubble(t, ft, cfg, func(s *simrt.Sim) { spec.Body(s, tier) })
 }
 
 // shrink minimises the tape while the same oracle fires.
-func shrink(t *testing.T, spec Spec, tier string, res *simrt.Result, idx, seed uint64) FailureRec {
+func shrink(t *testing.T, spec Spec, tier string, res *simrt.Result, idx, seed, variant uint64) FailureRec {
 	oracle := res.Failure.Oracle
 	best := append([]uint64(nil), res.Tape...)
 	orig := len(best)
@@ -280,7 +286,7 @@ func shrink(t *testing.T, spec Spec, tier string, res *simrt.Result, idx, seed u
 			return false
 		}
 		execs++
-		r := runForced(t, spec, tier, cand, false)
+		r := runForced(t, spec, tier, cand, variant, false)
 		if r != nil && r.Failure != nil && r.Failure.Oracle == oracle && r.Infra == "" {
 			// keep what was actually consumed (may be shorter)
 			c := r.Tape
@@ -297,7 +303,7 @@ func shrink(t *testing.T, spec Spec, tier string, res *simrt.Result, idx, seed u
 	}
 	// confirm reproducibility first
 	if !try(best) {
-		return FailureRec{Oracle: oracle, Msg: "NOT REPRODUCIBLE on forced tape: " + res.Failure.Msg, RunIndex: idx, Seed: seed, Tape: res.Tape, OrigLen: orig}
+		return FailureRec{Oracle: oracle, Msg: "NOT REPRODUCIBLE on forced tape: " + res.Failure.Msg, RunIndex: idx, Seed: seed, Tape: res.Tape, OrigLen: orig, Variant: variant}
 	}
 	improved := true
 	for improved && time.Now().Before(deadline) {
@@ -359,8 +365,8 @@ func shrink(t *testing.T, spec Spec, tier string, res *simrt.Result, idx, seed u
 			}
 		}
 	}
-	final := runForced(t, spec, tier, best, true)
-	fr := FailureRec{Oracle: oracle, RunIndex: idx, Seed: seed, Tape: best, OrigLen: orig, Shrinks: execs, Sample: curSample}
+	final := runForced(t, spec, tier, best, variant, true)
+	fr := FailureRec{Oracle: oracle, RunIndex: idx, Seed: seed, Tape: best, OrigLen: orig, Shrinks: execs, Sample: curSample, Variant: variant}
 	if final != nil && final.Failure != nil && final.Failure.Oracle == oracle {
 		fr.Msg = final.Failure.Msg
 		fr.Trace = final.Trace
@@ -383,6 +389,7 @@ type ReplayFile struct {
 	Tier     string   `json:"tier"`
 	Config   any      `json:"config,omitempty"`
 	Tape     []uint64 `json:"tape"`
+	Variant  uint64   `json:"variant"`
 	Steps    []string `json:"steps"`
 	Message  string   `json:"message"`
 	Tree     string   `json:"kraken_tree"`
@@ -402,7 +409,7 @@ func replay(t *testing.T, spec Spec, tier, path string) {
 	if rf.Tier != "" {
 		tier = rf.Tier
 	}
-	res := runForced(t, spec, tier, rf.Tape, true)
+	res := runForced(t, spec, tier, rf.Tape, rf.Variant, true)
 	if res.Infra != "" {
 		fmt.Printf("REPLAY-INFRA %s\n", res.Infra)
 		os.Exit(2)
